@@ -19,9 +19,15 @@ use std::time::{Duration, Instant};
 
 /// Run the real pipeline in this process and build the same result the child would send.
 pub fn solve_inline(input: &Value, want_snapshots: bool) -> ChildResult {
+    solve_inline_with(input, want_snapshots, server::solve_instance)
+}
+
+/// The same for any entry point that records the stage snapshots (hooks H5/H6 in
+/// `server::solve_instance`, H7 in `internal::run`).
+pub fn solve_inline_with(input: &Value, want_snapshots: bool, entry: fn(Value) -> Value) -> ChildResult {
     let res = sut::catch(|| {
         solution::verif::enable();
-        let out = server::solve_instance(input.clone());
+        let out = entry(input.clone());
         let snaps = solution::verif::take();
         let trans = solution::verif::take_transitions();
         (out, snaps, trans)
@@ -68,15 +74,16 @@ pub fn solve_inline(input: &Value, want_snapshots: bool) -> ChildResult {
 }
 
 /// `rsv solve-one-internal`: the command-line entry point's pipeline (`internal::run`, what
-/// `single_run` executes) on the instance read from stdin; no hooks there, only the answer.
+/// `single_run` executes) on the instance read from stdin, with the stage snapshots of hook H7.
 pub fn solve_one_internal_main() -> i32 {
     sut::silence_stdout();
     let mut input = String::new();
     std::io::stdin().read_to_string(&mut input).expect("stdin");
     let input: Value = serde_json::from_str(&input).expect("instance json");
-    match sut::catch(|| internal::run(input.clone())) {
-        Err(p) => sut::outln(&json!({"status": "panic", "msg": p.msg, "loc": p.loc, "file": p.file()}).to_string()),
-        Ok(out) => sut::outln(&json!({"status": "answer", "output": out, "snapshots": []}).to_string()),
+    match solve_inline_with(&input, true, internal::run) {
+        ChildResult::Panic { msg, file, loc } => sut::outln(&json!({"status": "panic", "msg": msg, "loc": loc, "file": file}).to_string()),
+        ChildResult::Answer { output, snapshots } => sut::outln(&json!({"status": "answer", "output": output, "snapshots": snapshots}).to_string()),
+        _ => {}
     }
     0
 }
@@ -541,11 +548,16 @@ impl Engine for PipelineEngine {
             }
         }
         // the second entry point: `internal::run` (single_run) must return valid answers too.
-        // Every third case, optimised build, answer validated by O-JSON only (no hooks there).
+        // Every third case, optimised build: answer validated by O-JSON, stages (hook H7) by the
+        // same relation as for the server's entry point.
         if !self.in_process && o.inconclusive.is_none() && o.excluded.is_none() && tape.digest() % 3 == 0 {
             match run_child("release", &["solve-one-internal"], &input_s, self.watchdog, &[]) {
-                ChildResult::Answer { output, .. } => {
+                ChildResult::Answer { output, snapshots } => {
                     let (mut fs, _facts, _parsed) = ojson::validate(&fl, &output);
+                    let (opt_changed, _, _) = check_stages(&fl, &snapshots, &output, &mut fs);
+                    if opt_changed {
+                        classes.push("internal_run_optimiser_changed_cycles".into());
+                    }
                     for f in fs.iter_mut() {
                         f.msg = format!("[single_run/internal::run] {}", f.msg);
                     }
